@@ -5,6 +5,7 @@ import (
 	"fmt"
 	"io"
 	"log"
+	"net"
 	"os"
 	"path/filepath"
 	"runtime"
@@ -95,6 +96,26 @@ func (Engine) Execute(planJSON json.RawMessage, scratch string) (res sim.RunResu
 		}
 	}
 	s.or = newOracles(s)
+	if p.Loopback && len(s.capt.Names) > 0 {
+		// a PCAP-over-IP source: serves one capture over a loopback socket, then closes
+		if ln, err := net.Listen("tcp", "127.0.0.1:0"); err == nil {
+			s.loopback = ln.Addr().String()
+			data, _ := os.ReadFile(filepath.Join(src, s.capt.Names[len(s.capt.Names)-1]))
+			go func() {
+				for {
+					c, err := ln.Accept()
+					if err != nil {
+						return
+					}
+					c.Write(data)
+					time.Sleep(20 * time.Millisecond)
+					c.Close()
+				}
+			}()
+			defer ln.Close()
+			res.Count("fault_loopback_pcap_over_ip", 1)
+		}
+	}
 
 	fatal := false
 	func() {
